@@ -6,7 +6,7 @@
  *   calls file:  U <unit> <ncalls>                      start of the call list of drv_units[unit]
  *                C <fn> <flags> <nargs> <a0> <a1> ...   flags: 1 = fresh instance, 2 = refill memory
  *   output:      R <unit> <call> <outcome> M <pages>:<hash>|- H <trace>|-
- *                outcome = ok <nres> <r0> ... | sig:<SIGNAME> | hang | init-failed:<SIGNAME> | lost:<status>
+ *                outcome = ok <nres> <r0> ... | sig:<SIGNAME> | hang | skipped:after-hang | init-failed:<SIGNAME> | lost:<status>
  *
  * A "fresh instance" is a forked child: the translated module keeps its state in C statics, so a
  * new process is the only way to get pristine globals, memory and init flag. Inside the child
@@ -215,6 +215,8 @@ static void tail_fields(const struct drv_unit *u, char *out, size_t cap) {
   snprintf(out, cap, " M %s H %s\n", m, trace_len ? trace : "-");
 }
 
+static int hung; /* set once a call of this instance was cut off by the timer */
+
 static void run_call(const struct ulist *ul, int c) {
   const struct drv_unit *u = drv_units[ul->unit];
   static char line[9000], tail[8400];
@@ -241,7 +243,7 @@ static void run_call(const struct ulist *ul, int c) {
     for (int i = 0; i < f->nres; i++) n += snprintf(line + n, sizeof line - n, " %" PRIu64, res[i]);
   } else {
     set_timer(0);
-    if (s == SIGVTALRM) n += snprintf(line + n, sizeof line - n, "hang");
+    if (s == SIGVTALRM) { n += snprintf(line + n, sizeof line - n, "hang"); hung = 1; }
     else n += snprintf(line + n, sizeof line - n, "sig:%s", signame(s));
   }
   tail_fields(u, tail, sizeof tail);
@@ -281,7 +283,14 @@ static void run_group(const struct ulist *ul, int first, int last) {
     return;
   }
   for (int c = first; c < last; c++) {
-    run_call(ul, c);
+    if (hung) {
+      /* where the timer cut the call off depends on scheduling: the state of this instance is not
+       * reproducible any more, the remaining calls of the group are not made */
+      snprintf(line, sizeof line, "R %d %d skipped:after-hang M - H -\n", ul->unit, c);
+      emit(line);
+    } else {
+      run_call(ul, c);
+    }
     *progress = c - first + 1;
   }
 }
